@@ -41,9 +41,19 @@ def plan(tier, seed):
     return specs
 
 
+# legal identifiers: non-ASCII letters, and characters that are identifier characters but no regex word characters
+UNICODE_NAMES = ["größe", "данные", "überblick", "Models"]
+NONWORD_NAMES = ["ข้อมูล", "a·b", "src.ข้อมูล.x"]
+
+
 def gen_spec(rnd, dotted=None):
     dotted = rnd.random() < 0.3 if dotted is None else dotted
     pool = DOTTED if dotted else NAMES
+    r = rnd.random()
+    if r < 0.15:
+        pool = pool + UNICODE_NAMES
+    elif r < 0.19:
+        pool = pool[:4] + NONWORD_NAMES
     n = rnd.randint(2, min(8, len(pool)))
     comps = rnd.sample(pool, n)
     pairs = [(a, b) for a in comps for b in comps if a != b]
